@@ -381,22 +381,67 @@ Theorem aggregates_fresh_d : forall es s,
             s_aggs s' (a_key a) = a_read a (map fresh (map rc_tour (s_routes s'))).
 Proof. intros es s Hnd Hna Hs Hinv. destruct (handover_fresh_d es s Hnd Hna Hs Hinv) as (_ & _ & H). exact H. Qed.
 
-(* InsertionContext::restore: the aggregates are those of ALL tours the solution held when the handlers ran - the tours without
-   jobs that restore drops afterwards included *)
+(* InsertionContext::restore BEFORE /repo 38e261f (`early = false`): the aggregates are those of ALL tours the solution held when the
+   handlers ran - the tours without jobs that restore drops afterwards included *)
 Theorem restore_aggs_d : forall is_empty es s,
   NoDup (route_keys tour job value svalue es) -> NoDup (agg_keys tour job value svalue es) ->
   (forall f, In (ERoute f) es -> Sound f) ->
   Forall (fun r => rc_stale r = false -> forall k, In k (good_from tour job value svalue refreshes [] es) -> key_ok k r) (s_routes s) ->
-  let s' := restore_d tour job value svalue is_empty es s in
+  let s' := restore_d tour job value svalue false is_empty es s in
   map rc_tour (s_routes s') = filter (fun t => negb (is_empty t)) (map rc_tour (s_routes s)) /\
   forall a, In (EAgg a) es -> a_ext a -> In (a_key a) (good_aggs tour job value svalue refreshes [] es) ->
             s_aggs s' (a_key a) = a_read a (map fresh (map rc_tour (s_routes s))).
 Proof.
-  intros is_empty es s Hnd Hna Hs Hinv. cbn zeta. unfold restore_d. cbn [s_routes s_aggs].
+  intros is_empty es s Hnd Hna Hs Hinv. cbn zeta. unfold restore_d, drop_empty. cbn [s_routes s_aggs].
   destruct (handover_fresh_d es s Hnd Hna Hs Hinv) as (Ht & _ & Ha). cbn zeta in Ht, Ha. split.
   - rewrite <- Ht. generalize (s_routes (accept_solution_state_d tour job value svalue es s)). intros l.
     induction l as [|r l IH]; cbn; [reflexivity|]. destruct (is_empty (rc_tour r)); cbn; [exact IH|f_equal; exact IH].
   - intros a Hin Hext Hg. rewrite (Ha a Hin Hext Hg), Ht. reflexivity.
+Qed.
+
+Lemma map_drop_empty : forall is_empty (l : list rctx),
+  map rc_tour (drop_empty tour value is_empty l) = filter (fun t => negb (is_empty t)) (map rc_tour l).
+Proof.
+  intros is_empty l. unfold drop_empty. induction l as [|r l IH]; cbn; [reflexivity|].
+  destruct (is_empty (rc_tour r)); cbn; [exact IH|f_equal; exact IH].
+Qed.
+Lemma drop_empty_id : forall is_empty (l : list rctx),
+  Forall (fun t => is_empty t = false) (map rc_tour l) -> drop_empty tour value is_empty l = l.
+Proof.
+  intros is_empty l H. unfold drop_empty. induction l as [|r l IH]; cbn; [reflexivity|].
+  cbn [map] in H. inversion H as [|? ? Hr Hl]; subst. rewrite Hr. cbn. f_equal. apply IH. exact Hl.
+Qed.
+Lemma filter_all_nonempty : forall (is_empty : tour -> bool) (l : list tour),
+  Forall (fun t => is_empty t = false) (filter (fun t => negb (is_empty t)) l).
+Proof.
+  intros is_empty l. apply Forall_forall. intros t Ht. apply filter_In in Ht as [_ Ht]. destruct (is_empty t); [discriminate|reflexivity].
+Qed.
+
+(* InsertionContext::restore as it is since /repo 38e261f (`early = true`): the tours of the result are the tours with jobs, and
+   every good aggregate is the fold over exactly THOSE tours *)
+Theorem restore_fixed_d : forall is_empty es s,
+  NoDup (route_keys tour job value svalue es) -> NoDup (agg_keys tour job value svalue es) ->
+  (forall f, In (ERoute f) es -> Sound f) ->
+  Forall (fun r => rc_stale r = false -> forall k, In k (good_from tour job value svalue refreshes [] es) -> key_ok k r) (s_routes s) ->
+  let s' := restore_d tour job value svalue true is_empty es s in
+  map rc_tour (s_routes s') = filter (fun t => negb (is_empty t)) (map rc_tour (s_routes s)) /\
+  Forall (fun r' => rc_stale r' = false /\ forall k, In k (good_from tour job value svalue refreshes [] es) -> key_ok k r') (s_routes s') /\
+  forall a, In (EAgg a) es -> a_ext a -> In (a_key a) (good_aggs tour job value svalue refreshes [] es) ->
+            s_aggs s' (a_key a) = a_read a (map fresh (map rc_tour (s_routes s'))).
+Proof.
+  intros is_empty es s Hnd Hna Hs Hinv. cbn zeta. unfold restore_d.
+  set (s0 := mkS (drop_empty tour value is_empty (s_routes s)) (s_aggs s)).
+  assert (Hinv0 : Forall (fun r => rc_stale r = false -> forall k, In k (good_from tour job value svalue refreshes [] es) -> key_ok k r) (s_routes s0)).
+  { cbn [s0 s_routes]. unfold drop_empty. apply Forall_forall. intros r Hr. apply filter_In in Hr as [Hr _].
+    rewrite Forall_forall in Hinv. apply Hinv. exact Hr. }
+  destruct (handover_fresh_d es s0 Hnd Hna Hs Hinv0) as (Ht & Hf & Ha). cbn zeta in Ht, Hf, Ha.
+  assert (Ht0 : map rc_tour (s_routes (accept_solution_state_d tour job value svalue es s0)) =
+                filter (fun t => negb (is_empty t)) (map rc_tour (s_routes s))).
+  { rewrite Ht. cbn [s0 s_routes]. apply map_drop_empty. }
+  assert (Hid : drop_empty tour value is_empty (s_routes (accept_solution_state_d tour job value svalue es s0)) =
+                s_routes (accept_solution_state_d tour job value svalue es s0)).
+  { apply drop_empty_id. rewrite Ht0. apply filter_all_nonempty. }
+  cbn [s_routes s_aggs]. rewrite Hid. split; [exact Ht0|]. split; [exact Hf|exact Ha].
 Qed.
 
 (* objective values are a function of the tours: what an objective can read after a hand-over - tours, good keys, good
@@ -539,8 +584,10 @@ Proof.
   - unfold cached_z. rewrite (H K_DIST) by (left; reflexivity). reflexivity.
   - unfold cached_z. rewrite (H K_DUR) by (left; reflexivity). reflexivity.
 Qed.
+Lemma ro_balance_gen : forall sol reload o, RO (f_balance_gen sol reload o).
+Proof. intros sol reload o t c c' H. cbn. rewrite (estimate_ext reload o t c c' H). reflexivity. Qed.
 Lemma ro_balance : forall reload o, RO (f_balance reload o).
-Proof. intros reload o t c c' H. cbn. rewrite (estimate_ext reload o t c c' H). reflexivity. Qed.
+Proof. intros reload o. apply ro_balance_gen. Qed.
 
 Lemma ideal_reads_only : forall g f, In f (ideal dur dist g) -> RO f.
 Proof.
@@ -557,7 +604,7 @@ Proof.
   - apply in_flat_map in H as (o & _ & H). destruct o; cbn in H; destruct H as [<-|[]]; try apply ro_balance. apply ro_ranges.
 Qed.
 
-Lemma obj_entry_feature : forall reload o f, In (ERoute f) (objective_entries reload o) -> In f (objective_features reload o).
+Lemma obj_entry_feature : forall reload o f, In (ERoute f) (objective_entries SolStale reload o) -> In f (objective_features reload o).
 Proof.
   intros reload o f H. destruct o; cbn in *; destruct H as [E|H]; try (injection E as <-; left; reflexivity);
     try (destruct H as [E|[]]; discriminate); try destruct H.
@@ -565,7 +612,7 @@ Qed.
 
 Lemma goal_features_ideal : forall g f, In (ERoute f) (goal_table dur dist g) -> In f (ideal dur dist g).
 Proof.
-  intros g f H. unfold goal_table in H. unfold ideal. rewrite !in_app_iff in *.
+  intros g f H. unfold goal_table, goal_table_gen in H. unfold ideal. rewrite !in_app_iff in *.
   destruct H as [H|[H|[H|[H|[H|[H|[H|[H|H]]]]]]]].
   - apply in_if in H as [_ [E|[]]]. discriminate.
   - apply in_flat_map in H as (o & Ho & H). do 6 right. apply in_flat_map. exists o.
@@ -612,8 +659,8 @@ Proof.
 Qed.
 Lemma goal_aggs_ext : forall g a, In (EAgg a) (goal_table dur dist g) -> a_ext ftour fval sval a.
 Proof.
-  intros g a H. unfold goal_table in H. rewrite !in_app_iff in H.
-  assert (Hobj : forall l, In (EAgg a) (flat_map (objective_entries (c_reload g)) l) -> a_ext ftour fval sval a).
+  intros g a H. unfold goal_table, goal_table_gen in H. rewrite !in_app_iff in H.
+  assert (Hobj : forall l, In (EAgg a) (flat_map (objective_entries SolStale (c_reload g)) l) -> a_ext ftour fval sval a).
   { intros l Hl. apply in_flat_map in Hl as (o & _ & Ho). destruct o; cbn in Ho;
       try (destruct Ho as [E|[E|[]]]; [discriminate|injection E as <-; apply ext_balance]).
     destruct Ho as [E|[]]. discriminate. }
@@ -655,6 +702,22 @@ Theorem goal_handover_fresh : forall g, keys_ok dur dist g = true -> ideal_ok du
 Proof.
   intros g Hk Hi s Hinv. destruct (keys_ok_nodup g Hk) as [Hnd Hna].
   destruct (handover_fresh_d ftour fact fval sval (SCg g) (goal_table dur dist g) s Hnd Hna (goal_sound g Hk Hi) Hinv) as (Ht & Hf & Ha).
+  cbn zeta in *. split; [exact Ht|]. split; [exact Hf|].
+  intros k Hin. destruct (good_aggs_entry ftour fact fval sval _ _ _ Hin) as (a & Hain & <-).
+  rewrite (Ha a Hain (goal_aggs_ext g a Hain) Hin). unfold spec_aggs. rewrite (find_agg _ a Hna Hain). reflexivity.
+Qed.
+
+(* restore / the end of an insertion run, as they are since /repo 38e261f, for any goal configuration passing the checks *)
+Theorem goal_restore_fresh : forall g, keys_ok dur dist g = true -> ideal_ok dur dist g = true ->
+  forall (is_empty : ftour -> bool) (s : sctx ftour fval sval),
+  Forall (fun r => rc_stale r = false -> forall k, In k (good_handover dur dist g) -> key_okg g k r) (s_routes s) ->
+  let s' := restore_d ftour fact fval sval true is_empty (goal_table dur dist g) s in
+  map rc_tour (s_routes s') = filter (fun t => negb (is_empty t)) (map rc_tour (s_routes s)) /\
+  Forall (fun r' => rc_stale r' = false /\ forall k, In k (good_handover dur dist g) -> key_okg g k r') (s_routes s') /\
+  forall k, In k (good_handover_aggs dur dist g) -> s_aggs s' k = spec_aggs dur dist g (map rc_tour (s_routes s')) k.
+Proof.
+  intros g Hk Hi is_empty s Hinv. destruct (keys_ok_nodup g Hk) as [Hnd Hna].
+  destruct (restore_fixed_d ftour fact fval sval (SCg g) is_empty (goal_table dur dist g) s Hnd Hna (goal_sound g Hk Hi) Hinv) as (Ht & Hf & Ha).
   cbn zeta in *. split; [exact Ht|]. split; [exact Hf|].
   intros k Hin. destruct (good_aggs_entry ftour fact fval sval _ _ _ Hin) as (a & Hain & <-).
   rewrite (Ha a Hain (goal_aggs_ext g a Hain) Hin). unfold spec_aggs. rewrite (find_agg _ a Hna Hain). reflexivity.
@@ -709,10 +772,11 @@ Proof. split; vm_compute; reflexivity. Qed.
 Lemma untagged_checks : keys_ok dur dist cfg_untagged = true /\ ideal_ok dur dist cfg_untagged = true.
 Proof. split; vm_compute; reflexivity. Qed.
 
-(* the keys accept_solution_state makes right in cfg_full: everything cached per tour except the work-balance route values
-   and the limit duration (no solution-level handler) *)
+(* the keys accept_solution_state makes right in cfg_full: everything cached per tour except the limit duration (no
+   solution-level handler; a function of the actor) - since /repo 5d6f1d2 the work-balance route values included *)
 Lemma full_good_handover : good_handover dur dist cfg_full =
-  [K_RDIST; K_RIVS; K_GROUPS; K_COMPAT; K_MAXLOAD; K_FUT; K_PAST; K_CUR; K_RELOAD; K_RANGES; K_DUR; K_DIST; K_WAIT; K_LATEST; K_SCHED].
+  [K_RDIST; K_RIVS; K_GROUPS; K_COMPAT; K_MAXLOAD; K_FUT; K_PAST; K_CUR; K_RELOAD; K_RANGES; K_BAL ODuration; K_BAL ODistance;
+   K_BAL OActivities; K_DUR; K_DIST; K_WAIT; K_LATEST; K_SCHED].
 Proof. vm_compute. reflexivity. Qed.
 Lemma full_good_aggs : good_handover_aggs dur dist cfg_full = [A_ORDER; K_BAL OActivities; K_BAL ODistance; K_BAL ODuration].
 Proof. vm_compute. reflexivity. Qed.
@@ -756,6 +820,10 @@ Theorem handover_fresh_recharge : forall s, HandoverInv cfg_full s ->
 Proof. apply full_handover_keys. in_good. Qed.
 Theorem handover_fresh_fast_service : forall s, HandoverInv cfg_full s ->
   Forall (fun r' => rc_stale r' = false /\ forall k, In k [K_RANGES; K_SCHED; K_RELOAD] -> key_okg cfg_full k r')
+         (s_routes (accept_solution_state_d ftour fact fval sval (tab cfg_full) s)).
+Proof. apply full_handover_keys. in_good. Qed.
+Theorem handover_fresh_work_balance_route_values : forall s, HandoverInv cfg_full s ->
+  Forall (fun r' => rc_stale r' = false /\ forall k, In k [K_BAL OActivities; K_BAL ODistance; K_BAL ODuration] -> key_okg cfg_full k r')
          (s_routes (accept_solution_state_d ftour fact fval sval (tab cfg_full) s)).
 Proof. apply full_handover_keys. in_good. Qed.
 Theorem handover_fresh_transport : forall s, HandoverInv cfg_full s ->
@@ -915,11 +983,21 @@ End Inst2.
 (* F3: the per-route value has no solution-level refresh: a job leaves the tour (ruin), accept_solution_state runs, the tour is
    flagged fresh, the value is the old one *)
 Lemma balance_route_value_stale :
+  let es := goal_table_before_5d6f1d2 udur udist cfg_activities in
+  let s' := accept_solution_state_d ftour fact fval sval es
+              (mkS [route_mut ftour fval (drop_job 2) (wfresh_before cfg_activities wtour2)] (fun _ => None)) in
+  exists r', s_routes s' = [r'] /\ rc_stale r' = false /\ rc_tour r' = wtour1 /\
+             rc_state r' (K_BAL OActivities) = Some (VZ 2) /\
+             spec_cache udur udist cfg_activities wtour1 (K_BAL OActivities) = Some (VZ 1).
+Proof. cbn zeta. eexists. split; [reflexivity|]. vm_compute. auto. Qed.
+
+(* the same history with the table as it is since 5d6f1d2: the value is the one of the tour *)
+Lemma balance_route_value_repaired :
   let es := goal_table udur udist cfg_activities in
   let s' := accept_solution_state_d ftour fact fval sval es
               (mkS [route_mut ftour fval (drop_job 2) (wfresh cfg_activities wtour2)] (fun _ => None)) in
   exists r', s_routes s' = [r'] /\ rc_stale r' = false /\ rc_tour r' = wtour1 /\
-             rc_state r' (K_BAL OActivities) = Some (VZ 2) /\
+             rc_state r' (K_BAL OActivities) = Some (VZ 1) /\
              spec_cache udur udist cfg_activities wtour1 (K_BAL OActivities) = Some (VZ 1).
 Proof. cbn zeta. eexists. split; [reflexivity|]. vm_compute. auto. Qed.
 
@@ -948,10 +1026,19 @@ Proof. vm_compute. repeat split; auto. Qed.
 (* F5: restore = accept_solution_state, then remove_empty_routes: the aggregate counts the tour that was emptied *)
 Lemma restore_counts_empty_tour :
   let es := goal_table udur udist cfg_activities in
-  let s' := restore_d ftour fact fval sval no_jobs es
+  let s' := restore_d ftour fact fval sval false no_jobs es
               (mkS [wfresh cfg_activities wtour2; route_mut ftour fval (drop_job 1) (wfresh cfg_activities wtour1)] (fun _ => None)) in
   map rc_tour (s_routes s') = [wtour2] /\
   s_aggs s' (K_BAL OActivities) = Some (SVec [VZ 2; VZ 0]) /\
+  spec_aggs udur udist cfg_activities [wtour2] (K_BAL OActivities) = Some (SVec [VZ 2]).
+Proof. vm_compute. auto. Qed.
+(* the same with restore as it is since 38e261f *)
+Lemma restore_repaired :
+  let es := goal_table udur udist cfg_activities in
+  let s' := restore_d ftour fact fval sval true no_jobs es
+              (mkS [wfresh cfg_activities wtour2; route_mut ftour fval (drop_job 1) (wfresh cfg_activities wtour1)] (fun _ => None)) in
+  map rc_tour (s_routes s') = [wtour2] /\
+  s_aggs s' (K_BAL OActivities) = Some (SVec [VZ 2]) /\
   spec_aggs udur udist cfg_activities [wtour2] (K_BAL OActivities) = Some (SVec [VZ 2]).
 Proof. vm_compute. auto. Qed.
 
@@ -974,3 +1061,13 @@ Proof.
     eapply Forall_impl; [|exact Hf]. intros r [_ Hg] _. exact Hg.
   - split; [eexists; split; [reflexivity|]|]; vm_compute; auto 10.
 Qed.
+
+(* F6: the tour emptied by a state handler of the same refresh is counted: [2; 0] where the remaining tours give [2] *)
+Lemma restore_counts_tour_emptied_by_handler :
+  let es := goal_table udur udist cfg_activities in
+  let s' := restore_with_restart drop_markers es
+              (mkS [wfresh cfg_activities wtour2; wfresh cfg_activities wtourm] (fun _ => None)) in
+  map rc_tour (s_routes s') = [wtour2] /\
+  s_aggs s' (K_BAL OActivities) = Some (SVec [VZ 2; VZ 0]) /\
+  spec_aggs udur udist cfg_activities [wtour2] (K_BAL OActivities) = Some (SVec [VZ 2]).
+Proof. vm_compute. auto. Qed.
